@@ -126,6 +126,39 @@ class CompMixin:
         st.assume(z3.ForAll([q], z3.Implies(cond(q), (q <= r) if is_max else (q >= r))))
         return SV(INT, r)
 
+    def dict_comprehension_havoc(self, e, gen, it, s):
+        """Any other {key(k, v): value(k, v) for k, v in d.items() [if ...]}: havoc semantics as for lists - key, value and filters are
+        evaluated once for an ARBITRARY item (all their safety obligations, for all items; they must be pure and must not fork)
+        and the result is an unconstrained dict of the key / value types."""
+        if not all(self.is_pure_expr(c, s) for c in gen.ifs) or not self.is_pure_expr(e.key, s) or not self.is_pure_expr(e.value, s):
+            raise EngineError(f"impure dict comprehension: {ast.unparse(e)}")
+        d = it.extra[1]
+        k = sym.fresh(d.t.k, "ck")
+        v = SV(d.t.v, z3.Select(d.extra["val"], k.z))
+        sc = s.copy()
+        sc.assume(z3.Select(d.extra["has"], k.z))
+        kt = vt = None
+        for s2, oc in self.assign(gen.target, sym.tup_mk([k, v]), sc):
+            if oc.kind != "normal":
+                raise EngineError("comprehension target")
+            for c in gen.ifs:
+                r = self.ev_cond(c, s2)
+                if len(r) != 1 or isinstance(r[0][1], Raised):
+                    raise EngineError(f"comprehension filter forks: {ast.unparse(c)}")
+                s2 = r[0][0]
+                s2.assume(r[0][1])
+            for part in (e.key, e.value):
+                r = self.ev(part, s2)
+                if len(r) != 1 or isinstance(r[0][1], Raised):
+                    raise EngineError(f"comprehension element forks: {ast.unparse(part)}")
+                s2 = r[0][0]
+                x = self.reify(r[0][1]) if isinstance(r[0][1].t, TConst) else r[0][1]
+                if part is e.key:
+                    kt = x.t
+                else:
+                    vt = x.t
+        return sym.fresh(TDict(kt, vt), "dcomp")
+
     def dict_comprehension(self, e, st: State):
         """{k: v for k, v in d.items() if cond(k, v)}  (identity on keys and values; precise filter)."""
         if len(e.generators) != 1:
@@ -143,7 +176,8 @@ class CompMixin:
             if not (isinstance(tg, ast.Tuple) and len(tg.elts) == 2 and all(isinstance(x, ast.Name) for x in tg.elts)
                     and isinstance(e.key, ast.Name) and isinstance(e.value, ast.Name)
                     and e.key.id == tg.elts[0].id and e.value.id == tg.elts[1].id):
-                raise EngineError(f"dict comprehension shape: {ast.unparse(e)}")
+                out.append((s, self.dict_comprehension_havoc(e, gen, it, s)))
+                continue
             ks = sym.sort_of(d.t.k)
             q = z3.Const(sym.fresh_name("dk"), ks)
 
